@@ -40,7 +40,6 @@ Definition conv (which : nat) (r : option (nat * nat)) : outv :=
   end.
 (* 0 agree | 1 the text is not the regular expression's result | 2 reported count / search result differs from the model
    3 markup moved | 4 a container whose own text was replaced is not in white-space normal form
-   5 search result indexes text_recursive (own tail included), not the element's own text (F28 class)
    7 oracle table incomplete (harness) | 8 outside the model's domain | 9 exact shape differs: fidelity only *)
 Definition chk (c : node * op16 * outv * node) : nat :=
   let '(pre, o, out, post) := c in
@@ -69,39 +68,24 @@ Definition chk (c : node * op16 * outv * node) : nat :=
       else if negb (out_eqb out (VNat cnt) && Nat.eqb cnt (replace_count f pc)) then 2
       else if evs_eqb (content m) qc then 0 else 9
   | SFind which tbl =>
-      if negb (plain_tree pre) then 8 else
-      match lookup_opt tbl (text_recursive pre), lookup_opt tbl (inner_text pre) with
-      | Some rm, Some rs => if negb (out_eqb out (conv which rm)) then 2 else if negb (out_eqb out (conv which rs)) then 5 else 0
-      | _, _ => 7
+      match lookup_opt tbl (own_text pre) with
+      | Some r => if out_eqb out (conv which r) then 0 else 2
+      | None => 7
       end
   | SAll tbl =>
-      if negb (plain_tree pre) then 8 else
-      match lookup_opt tbl (text_recursive pre), lookup_opt tbl (inner_text pre) with
-      | Some rm, Some rs => if negb (out_eqb out (VList rm)) then 2 else if negb (out_eqb out (VList rs)) then 5 else 0
-      | _, _ => 7
+      match lookup_opt tbl (own_text pre) with
+      | Some r => if out_eqb out (VList r) then 0 else 2
+      | None => 7
       end
-  | STextAt st e =>
-      if negb (plain_tree pre) then 8
-      else if negb (out_eqb out (VStr (text_at_ pre st e))) then 2
-      else if negb (out_eqb out (VStr (text_at_ (set_tail pre None) st e))) then 5 else 0
+  | STextAt st e => if out_eqb out (VStr (text_at_ pre st e)) then 0 else 2
   end.'''
 
 LAYER = {1: "text: after replace the text nodes are not re.subn of the former text nodes (or counting changed the tree)",
          2: "result: the returned count / search result is not the regular expression's",
          3: "markup: replace moved or lost markup",
          4: "normal form: a container whose own text was replaced with formatted=True is not in white-space normal form",
-         5: "search positions index the element's text plus its own tail",
          7: "oracle table incomplete"}
 NEWS = ['X', '', 'A\tB  C', ' ', '  ', 'x\ny', ' x', 'y ', 'a  a', '\t']
-
-
-# python mirror of Tree.inner_text (only to know which strings the regex oracle must be tabulated on)
-def inner_text(n):
-    k, a, s, tx, ks, tl = n
-    if k.startswith('KS '): return ' ' * int(k[3:])
-    if k == 'KTab': return '\t'
-    if k == 'KLb': return '\n'
-    return (tx or '') + ''.join(inner_text(c) + (c[5] or '') for c in ks)
 
 
 def coq_tbl(ctx, items, val):
@@ -142,7 +126,7 @@ def run_case(odfdo, ctx, case):
                 cop = '%s %s' % ('RPlain' if k == 'plain' else 'RFmt',
                                  coq_tbl(ctx, [(s, pat.subn(op['new'], s)) for s in tx], lambda v: '(%s, %d)' % (ctx.cs(v[0]), v[1])))
             elif k in ('search', 'search_first', 'match'):
-                strs = list(dict.fromkeys([inner_text(pre) + (pre[5] or ''), inner_text(pre)]))
+                strs = [tl.own_text(pre)]
                 which = {'search': 0, 'search_first': 1, 'match': 2}[k]
                 out = getattr(e, k)(rx)
                 if k == 'search': vo = 'VOpt %s' % ('None' if out is None else '(Some (%d, 0))' % out)
@@ -151,7 +135,7 @@ def run_case(odfdo, ctx, case):
                 res = lambda s: (lambda m: 'None' if m is None else '(Some (%d, %d))' % m.span())(pat.search(s))
                 cop = 'SFind %d %s' % (which, coq_tbl(ctx, [(s, res(s)) for s in strs], str))
             elif k == 'search_all':
-                strs = list(dict.fromkeys([inner_text(pre) + (pre[5] or ''), inner_text(pre)]))
+                strs = [tl.own_text(pre)]
                 out = e.search_all(rx)
                 vo = 'VList [%s]' % ';'.join('(%d,%d)' % t for t in out)
                 cop = 'SAll %s' % coq_tbl(ctx, [(s, '[' + ';'.join('(%d,%d)' % m.span() for m in pat.finditer(s)) + ']') for s in strs], str)
@@ -214,8 +198,6 @@ def py_oracle(meta):
 
 
 def classify(code, meta):
-    if code == 5:
-        return "search/own-tail-included"
     return None
 
 
@@ -278,7 +260,7 @@ def run(tier, seed, replay=None):
     coverage = dict(
         trusted_base=["lxml (text/tail semantics, XPath descendant::text())",
                       "Python re: subn / findall / search / finditer are the specification of 'what the regular expression says'; the harness applies them per text node of the abstracted pre-state and hands the tables to the model",
-                      "modelled in Tree.v / TreeNF.v: element.py replace (count, plain, formatted as repaired by fixes/F27), search, search_first, search_all, match, text_at, text_recursive, inner_text; Paragraph.append_plain_text through WS.v",
+                      "modelled in Tree.v / TreeNF.v: element.py replace (count, plain, formatted), search, search_first, search_all, match, text_at over Element._own_text (fixes/F28, F103); Paragraph.append_plain_text through WS.v",
                       "ODF 1.2 section 6.1.2 consumer reading fixed in DESIGN.md 5/C05 (normal form predicate NFb)"],
         evaluations=len(terms), distinct_nontrivial=len(nontrivial),
         rule="for every generated element tree (text, nested spans/links, text:s/tab/line-break, marks, notes, annotations; 35% after a set_span/set_bookmark so that empty text nodes exist; every 4th from the edge stream with raw double spaces): count, two plain and two formatted replacements (10 replacement strings with and without white space), one of search/search_first/match, search_all, text_at, on the paragraph or an inner span/link; 23 regexes without empty matches. non-trivial = the call changed the tree or returned a non-empty result; distinct = distinct (operation, pre-state)",
@@ -287,7 +269,7 @@ def run(tier, seed, replay=None):
         driver_errors=len(driver_errors), exhaustive=False)
     return common.finish(PROP, tier, seed, proofs, coverage, violations, known_seen, t0,
                          assumptions=["patterns that can match the empty string are excluded (property's quantifier)",
-                                      "search on elements containing links, notes or annotations is not compared (their str() renders markup: see notes/C16.md)"])
+                                      "search positions refer to the element's own readable text (text:s/tab/line-break decoded, links as their text, notes and annotations skipped, own tail excluded)"])
 
 
 if __name__ == "__main__":
